@@ -69,48 +69,47 @@ META = {
   note="Look-up options combined with selection switches are not specified by the statement: no obligation.",
   assumptions=[]),
  'C08': dict(
-  level='other',
-  text="getFileList is proved for 0..3 opaque file names (filter, ascending order via an abstract total order, exact reverse, top level only). "
-       "The three modes are proved over an abstract directory of 0..2 files with arbitrary per-file outcomes, all sharing one selection predicate; "
-       "agreement for larger directories and the field equality list-vs-full-decode are checked by the CLI harness (bounded).",
-  note="Per-file loops are unrolled (<= 2 files), not cut by invariants: bounded in the number of files, symbolic in everything else.",
-  explanation="Deductive part: getFileList (<=3 names), -a/-l/-n over <=2 files with havocked decoders (one shared selected() predicate => equal "
-              "counts). Bounded part: real CLI on generated directories (0..4 PELs, options, --reverse, --extension). Not proved: arbitrary N files.",
+  level='proof',
+  text="Directories of ANY size: getFileList == sorted(FILT(n), reverse) with FILT the top-level names that pass the extension filter (loop "
+       "invariant; top level only); -n, -l, -a by per-file loop invariants over recursively defined COUNT/SUM/OUT, all three built from one "
+       "selection predicate and the same file list, so count == list entries == documents, same PELs, same order. Additionally getFileList for "
+       "0..3 names with an abstract total order (ascending, exact reverse) and the modes over 0..2 files incl. stderr obligations.",
+  note="list.sort on a symbolic-length list is an assumed contract (sorted rearrangement; exact reverse for distinct names); the equality of "
+       "list-entry fields with the full decode and options through the real CLI are a bounded companion.",
   assumptions=[FS_A, "distinct entry ids"]),
  'C09': dict(
-  level='other',
-  text="Every directory mode (-l, -a, -n, --plid, --src, --id, --bmc-id) and -f proved over an abstract directory of 0..2 files where each file "
-       "independently decodes, is filtered, has bad headers or raises: stdout is exactly the framing plus the contributions of the decodable "
-       "files in order, failures go to stderr, nothing is written. Junk-vs-clean directory comparison through the real CLI is bounded.",
-  note="Unrolled per-file loops (<= 2 files). Decoders are used through their C01/C05 contracts (print nothing on stdout).",
-  explanation="Deductive: modes over <=2 files x all outcome combinations. Bounded: real CLI with junk files / sub-directories added. -j is covered "
-              "through its per-file outputs (C11/C12).",
+  level='proof',
+  text="Every directory mode (-l, -a, -n, --plid, --src, --id, --bmc-id) for directories of ANY size by per-file loop invariants: stdout is the "
+       "framing plus OUT(n), where a file that is filtered, has bad headers or raises contributes NOTHING (so adding such files changes neither "
+       "the contributions of the others nor their order), nothing is written, the mode returns normally; -f for a single file. The same modes "
+       "over 0..2 files additionally carry the stderr obligations.",
+  note="Decoders are used through their C01/C05 contracts (print nothing on stdout). Junk-vs-clean comparison through the real CLI is a bounded "
+       "companion; -j is covered through its per-file outputs (C11/C12).",
   assumptions=[FS_A]),
  'C10': dict(
   level='proof',
   text="Proof: processId (all lengths 0/7/8/9/10 with and without 0x/0X), the lemma that the displayed platform log id contains the normalised "
        "argument iff the 32-bit id equals it (all 2^32 ids, via base-16 expansion lemmas), and the four look-up modes over an abstract directory "
        "of 0..2 files (exactly the matches, 'PEL not found' otherwise, hidden PELs included).",
-  note="Look-up modes unrolled over <= 2 files; larger directories through the CLI harness (bounded).",
+  note="Look-up modes proved for directories of any size (invariants; first-match loops with quantified invariants) and again over <= 2 files.",
   assumptions=[FS_A]),
  'C11': dict(
-  level='other',
+  level='proof',
   text="Frame property on the ghost fs trace: deleteAllPELs removes exactly the regular top-level files (the walk model yields a sub-directory "
        "with a file: it is never touched); deletePELFromPELId removes at most the first name containing the id; every other mode emits no "
        "mutating event; parseAndWriteOutput writes only <out>/<file>.<eid>.json and removes only its input, only with --clean; main runs "
        "exactly one action per invocation.",
-  note="Modes unrolled over <= 2 files; os.walk/open/remove are assumed contracts (effects on the trace); plugins assumed fs-pure (A3).",
-  explanation="Deductive: deletion functions, all modes' fs frames (<=2 files), main dispatch (all option combinations, sharded). Bounded: tree "
-              "snapshots before/after every real CLI mode.",
+  note="Deletion functions and every mode's fs frame are proved for directories of any size (invariants); only main's own -j loop is unrolled "
+       "(0 or 2 files). os.walk/open/remove are assumed contracts (effects on the trace); plugins assumed fs-pure (A3). Tree snapshots through "
+       "the real CLI are a bounded companion.",
   assumptions=[FS_A, PLUGIN_A]),
  'C12': dict(
-  level='other',
+  level='proof',
   text="parseAndWriteOutput explored under every fault sequence at primitive granularity (open / write / close / remove may each raise OSError): "
        "remove(input) occurs only after write_ok and close_ok of that file's output, only with --clean, only for a decoded PEL; main removes the "
        "-f input only after parseAndPrintPELFile reported it displayed.",
-  note="Durability after a successful close (no fsync) and kernel-level partial writes are outside the contracts.",
-  explanation="Deductive: fault-sequence exploration of parseAndWriteOutput and main -f --clean. Bounded: real CLI with injected ENOSPC/EPIPE on "
-              "the k-th open/write/close/stdout write.",
+  note="Durability after a successful close (no fsync) and kernel-level partial writes are outside the contracts. The real CLI with injected "
+       "ENOSPC/EPIPE on the k-th open/write/close/stdout write is a bounded companion.",
   assumptions=[FS_A]),
  'C13': dict(
   level='proof',
